@@ -24,6 +24,8 @@ def b2b_steps(hist):
 
 
 def check(pid, tier, replay=None):
+    if replay:
+        return vlib.replay_observation(pid, "RpcContractTrace", replay)
     t0 = time.time()
     sd = vlib.seed()
     rng = random.Random(sd)
